@@ -11,7 +11,7 @@ from .. import harness as H
 from ..ref import http as RH
 from ..sim import shim
 
-SHARDS = {"quick": 8, "thorough": 16}
+SHARDS = {"quick": 9, "thorough": 17}  # the last shard runs the SOCKS part with a stand-in for python_socks on the import path
 META = {
     "level": "exploration",
     "technique": "runtime monitoring: get_proxy_info() and the full connect path on a simulated network (address dialled, bytes written before the WebSocket request, TLS server name, Host of the tunnelled request) compared with an executable model of the documented proxy rules",
@@ -106,6 +106,15 @@ def set_env(env):
 
 
 def run(res, tier, seed, shard, nshards):
+    socks_shard = shard == nshards - 1
+    nshards -= 1
+    if socks_shard:
+        import sys
+        sys.path.insert(0, os.path.join(os.path.dirname(os.path.dirname(os.path.abspath(__file__))), "standins_socks"))
+        W = H.ws()
+        from . import _c19_socks
+        H.in_sim(lambda: _c19_socks.socks_cases(res, W, random.Random((seed << 8) ^ 0x50C5), tier), watchdog=600)
+        return
     W = H.ws()
     rng = random.Random((seed << 8) ^ shard ^ 0xC19)
     H.scrub_env()
